@@ -24,7 +24,7 @@ META = {
               "noise_voltage -> the real function evaluated with real NumPy on the concrete band (float island)", "np.random.uniform -> symbolic draws (shared between the two runs that are compared)"],
     "assumptions": ["REAL mode", "decay altitude and decay length are related as produced upstream (C07): (alt+R)^2 = R^2 + l^2 + 2 R l sin(beta); lenDec > 0; path length > 0; view angle in (0, pi/2)"],
 }
-LEDGER = {"quick": 215, "thorough": 300}
+LEDGER = {"quick": 690, "thorough": 450}
 
 
 def _load_antenna(band, h_obs):
@@ -148,6 +148,7 @@ def eas_radio_run(N, det_alt):
                 self.fr = fr
 
             def __call__(self, zenith, view, h):
+                applied.setdefault("params_args", []).append((SymArray(zenith), SymArray(view), SymArray(h)))
                 n = len(SymArray(h))
                 out = _np.empty((n, 2), dtype=object)
                 for i in range(n):
@@ -211,6 +212,14 @@ def eas_radio_run(N, det_alt):
             row1, row2 = F1.a[i], F2.a[i]
             claims[f"[{i}] decay outside [0,10] km gives exactly zero field in every bin"] = z3.Implies(z3.Not(inr), z3.And(*[x.term() == 0 for x in row1]))
             claims[f"[{i}] field linear in shower energy: F(k*E) == k*F(E) in every bin"] = z3.And(*[y.term() == k * x.term() for x, y in zip(row1, row2)])
+        # alignment of what the parametrisation is asked: zenith, view angle and altitude of row i are event i's own
+        zen_a, view_a, h_a = applied["params_args"][0]
+        for i in idx:
+            own_view = NP.rad2deg(er.get_decay_view(theta[i:i + 1], pl[i:i + 1], ln[i:i + 1]))
+            a = z3.Real(f"altDec{i}")
+            claims[f"[{i}] the parametrisation is asked with this event's own view angle (in range) / 0 (outside), zenith and altitude"] = z3.And(
+                z3.If(z3.And(a >= 0, a <= 10), SV.of(view_a[i]).term() == SV.of(own_view[0]).term(), SV.of(view_a[i]).term() == 0),
+                SV.of(h_a[i]).term() == a, SV.of(zen_a[i]).term() == SV.of(NP.degrees(core.pi_sv() / 2.0 - beta[i])).term())
         claims[f"ionosphere scaling applied iff the detector is above 90 km (detector at {det_alt} km)"] = z3.BoolVal((applied["iono"] > 0) == (det_alt > 90) or N == 0)
         inputs = {"k": k}
         for i in idx:
@@ -273,6 +282,8 @@ def jobs(tier, seed):
     out = [("snr1", "job_snr", {"N": N, "band": [30, 80], "tier": tier}), ("snr2", "job_snr", {"N": 1, "band": [30, 300], "tier": tier}),
            ("bins", "job_bins", {"tier": tier}), ("filebins", "job_file_bins", {"tier": tier}),
            ("er525", "job_eas_radio", {"N": N, "det_alt": 525, "tier": tier}), ("er33", "job_eas_radio", {"N": 1, "det_alt": 33, "tier": tier})]
+    if tier == "quick":  # (an out-of-range event in front of two in-range ones needs three events; the thorough tier has N = 3 throughout)
+        out.append(("er525x3", "job_eas_radio", {"N": 3, "det_alt": 525, "tier": tier}))
     return out
 
 
@@ -321,6 +332,38 @@ def replay(v):
         cfg = NssConfig()
         cfg.detector.initial_position.altitude = 525.0 if "525" in job else 33.0
         er = EASRadio(cfg)
+        if "parametrisation is asked" in ob:
+            # spy on the real parametrisation: the view angle it is asked for must be the event's own (batch with out-of-range
+            # events in front of, between and behind in-range ones)
+            import nuspacesim.simulation.eas_radio.radio as rmod
+
+            seen = {}
+            orig = rmod.RadioEFieldParams.__call__
+
+            def spy(self_, zenith, view, h):
+                seen["args"] = (np.array(zenith), np.array(view), np.array(h))
+                return orig(self_, zenith, view, h)
+
+            rmod.RadioEFieldParams.__call__ = spy
+            try:
+                beta = np.array([0.1, 0.2, 0.15, 0.3, 0.25, 0.12])
+                ln = np.array([900.0, 30.0, 40.0, 2000.0, 25.0, 35.0])
+                Re = 6378.1
+                alt = np.sqrt(Re**2 + ln**2 + 2 * Re * ln * np.sin(beta)) - Re
+                th, pl, E = np.array([0.9, 1.0, 0.8, 0.7, 1.1, 0.95]), np.array([2000.0, 2100.0, 2200.0, 2300.0, 2150.0, 2050.0]), np.ones(6)
+                with np.errstate(all="ignore"):
+                    np.random.seed(4)
+                    er(beta, alt, ln, th, pl, E)
+                    inr = (alt >= 0) & (alt <= 10)
+                    want = np.where(inr, np.rad2deg(er.get_decay_view(th, pl, ln)), 0.0)
+            finally:
+                rmod.RadioEFieldParams.__call__ = orig
+            zen, view, h = seen["args"]
+            if view.shape != want.shape or not np.allclose(view, want, rtol=1e-12, atol=1e-12) or not np.array_equal(h, alt) or not np.allclose(zen, np.degrees(np.pi / 2 - beta)):
+                k = int(np.argmax(np.abs(view - want))) if view.shape == want.shape else 0
+                return {"reproduced": True, "key": "EASRadio: the parametrisation is not asked with each event's own view angle",
+                        "detail": f"decay altitudes {np.round(alt, 2).tolist()} km (in range: {inr.tolist()}): view angles passed {np.round(view, 4).tolist()} deg, each event's own {np.round(want, 4).tolist()} deg (event {k})"}
+            return {"reproduced": False, "key": None, "detail": "real code: view angle, zenith and altitude of every row are the event's own"}
         N = int(job.split("N=")[1].split(",")[0])
         Re = 6378.1
         k = m.get("k", 3.0)
